@@ -25,7 +25,7 @@ func init() {
 		Title: "A shared configuration can be used concurrently without interference",
 		Rule: "race-detector build; one shared IPAConfig; a seed-determined list of operation instances of 14 kinds (Commit, CreateMultiProof with n up to 64 > W, CheckMultiProof incl. invalid statements, Create+CheckIPAProof, MultiScalar/MultiExp with split paths, element operations, batch helpers, transcripts, fr functions using the shared big.Int pool, point codecs, fp square roots, parallel.Execute, GenerateRandomPoints, a second NewIPASettings) " +
 			"is executed by G in {8,32,64} goroutines (quick {8,32}) on private argument objects sharing one still-cold configuration, and then alone on a second, fresh configuration; several goroutines running the same instance at the same time; events {goroutine, instance, call/return stamps from the monotonic clock (a shared atomic counter would add happens-before edges between the goroutines and hide races from the detector), output digest} are recorded at the client boundary; " +
-			"oracles: every output equals the sequential output, zero race reports, configuration and package-constant fingerprints (incl. all 350 MB of tables) unchanged, bounded progress; GOMAXPROCS {1,2,4,16} x NumCPU {2,4,16} with H7 delays; additional cold-start child processes whose very first library calls are made by 20 goroutines at once (lazily initialised package state), compared with the same calls made alone afterwards; APIs that only read their arguments are also called on objects shared by all goroutines; a class is (operation kind, G, GOMAXPROCS, NumCPU); non-trivial = executed while at least one other operation was in flight",
+			"oracles: every output equals the sequential output, zero race reports, configuration and package-constant fingerprints (incl. all 350 MB of tables) unchanged, bounded progress; GOMAXPROCS {1,2,4,16} x NumCPU {2,4,16} with H7 delays; additional cold-start child processes (race build) whose very first library calls are made by 20 goroutines at once, and eight cheap plain-build processes (32 thorough) whose first 16 verifications are released by a spin barrier (lazily initialised package state), compared with the same calls made alone afterwards; APIs that only read their arguments are also called on objects shared by all goroutines; a class is (operation kind, G, GOMAXPROCS, NumCPU); non-trivial = executed while at least one other operation was in flight",
 		HangIsViolation:  true,
 		CaseLimitS:       map[string]int{"quick": 600, "thorough": 2400},
 		Technique:        "Go race detector over a concurrent stress workload + per-operation differential against sequentially precomputed outputs (exact linearizability check for a stateless API) + state fingerprints + runtime deadlock detector/watchdog",
@@ -42,6 +42,11 @@ func init() {
 				cfg := [][2]int{{3, 4}, {2, 1}, {3, 16}, {2, 2}}
 				for i, k := range cfg {
 					out = append(out, Child{TimeoutS: pick(tier, 900, 7200), Flavour: "race", NCPU: k[0], GOMAXPROCS: k[1], Shard: i, NShards: len(cfg), Params: map[string]string{"sched": fmt.Sprint(1 + i%2)}})
+				}
+				// fresh processes (plain build, cheap) whose first verifications are released together: a window of a few
+				// microseconds per process, so several processes on different CPU counts
+				for i, k := range []int{2, 3, 4, 8, 16, 2, 5, 4} {
+					out = append(out, Child{TimeoutS: 400, Flavour: "plain", NCPU: k, Shard: 20 + i, NShards: 1, Params: map[string]string{"part": "coldverify"}})
 				}
 				// cold-start processes: the first library calls of the process are concurrent
 				for i, k := range []int{2, 2, 2} {
@@ -60,6 +65,9 @@ func init() {
 			}
 			for i := 0; i < 16; i++ {
 				out = append(out, Child{TimeoutS: 1200, Flavour: "race", NCPU: 2 + i%5, GOMAXPROCS: []int{0, 8, 2, 16}[i%4], Shard: 100 + i, NShards: 1, Params: map[string]string{"part": "coldstart", "coldconf": []string{"0", "1", "0", "2"}[i%4]}})
+			}
+			for i := 0; i < 32; i++ {
+				out = append(out, Child{TimeoutS: 400, Flavour: "plain", NCPU: 2 + i%15, Shard: 200 + i, NShards: 1, Params: map[string]string{"part": "coldverify"}})
 			}
 			return out
 		},
@@ -219,6 +227,14 @@ func c12coldVerify(c *mon.Ctx, env *Env, o *opCtx) {
 	rng := c.Rand("coldverify")
 	for g := range jobs {
 		label, Cs, fs, zs, ys := o.buildStatement(rng, 1+g%5)
+		if g%2 == 1 {
+			// the last index of the domain (whatever is filled in index order is filled last for it)
+			for i := range zs {
+				zs[i] = 255
+				y := fs[i][255]
+				ys[i] = &y
+			}
+		}
 		pr, err := multiproof.CreateMultiProof(common.NewTranscript(label), env.Conf, Cs, fs, zs)
 		if err != nil {
 			c.Note("prover failed while preparing the cold verification: " + err.Error())
@@ -260,6 +276,17 @@ func c12coldVerify(c *mon.Ctx, env *Env, o *opCtx) {
 func runC12(c *mon.Ctx) {
 	if c.Config["part"] == "coldstart" {
 		c12cold(c)
+		return
+	}
+	if c.Config["part"] == "coldverify" {
+		env := GetEnv()
+		o := newOpCtx(env, c.Seed*1000+int64(c.Shard), c.Rand(fmt.Sprintf("c12coldverify/%d", c.Shard)))
+		c12coldVerify(c, env, o)
+		c.Count("hook.multiproof.group.send", 1)
+		c.Count("hook.msm.chunk.send", 1)
+		c.Count("fingerprint_checks", 1)
+		c.Count("concurrent_operations", 16)
+		c.Count("operations_overlapping_others", 16)
 		return
 	}
 	env := GetEnv() // config A: stays cold until the concurrent phase (lazily initialised state is part of what is monitored)
